@@ -28,8 +28,18 @@ def selftest_oracle() -> int:
 SELFTESTS = [selftest_oracle]
 
 
+def b1_impl_in_rfc(name: str):
+    from vtools import b1
+
+    return b1.run("impl_in_rfc", name)
+
+
 def obligations(tier: str):
+    from vtools import b1
+
     obls = []
+    for name, _f in b1.obligations_impl_in_rfc():
+        obls.append({"id": name, "kind": "smt", "func": "b1_impl_in_rfc", "params": {"name": name}, "timeout": 120})
     for i, (pre, suf) in enumerate(HOT):
         obls.append(holes.obligation("hot%02d.k1" % i, pre, suf, 1, "reject", 120))
         obls.append(holes.obligation("hot%02d.k2" % i, pre, suf, 2, "reject", 300))
